@@ -109,8 +109,7 @@ Lemma mk_live_spec : forall c m k via, classify c m = SKeep k via -> sig_spec c 
 Proof.
   intros c m k via H. destruct (classify_keep _ _ _ _ H) as (_ & LK & LP).
   unfold sig_spec, mk_live, has_receiver, consuming; simpl. rewrite LK, LP.
-  unfold sub. repeat split; auto; try (intros L; rewrite L; reflexivity); try apply map_length;
-    destruct k; simpl in *; auto; try congruence.
+  repeat split; auto; destruct k; simpl in *; auto; try congruence.
   destruct (c_debut c && mi_slf_ok m); reflexivity.
 Qed.
 
@@ -142,8 +141,7 @@ Proof.
       { apply filter_ext_in. intros m0 Hin. destruct (eligible c m0) eqn:E0; simpl; auto.
         apply CO. intros Heq. apply Hnot. rewrite <- Heq. apply in_map. apply filter_In. auto. }
       destruct (sel f (mi_name m)) eqn:SEL.
-      * destruct (sig_self_path (live_params k via m) (mi_ret m)); [discriminate|].
-        destruct (process c f1 r) as [[[f2 l2] n2]|] eqn:P; [|discriminate]. inversion H; subst.
+      * destruct (process c f1 r) as [[[f2 l2] n2]|] eqn:P; [|discriminate]. inversion H; subst.
         destruct (IH _ _ _ _ P ND') as (A & B & C). simpl. rewrite A, EXT, C, CLs. repeat split; auto.
         constructor; auto. simpl. now apply mk_live_spec.
       * destruct (IH _ _ _ _ H ND') as (A & B & C). rewrite A, EXT, C, CLs. auto.
@@ -231,7 +229,7 @@ Theorem gen_async_rule : forall c ms o, NoDup (elig_names c ms) -> gen c ms = Ok
 Proof.
   intros c ms o ND G lm Hin. destruct (gen_signature _ _ _ ND G lm Hin) as (_ & S).
   destruct (gen_inv _ _ _ G) as (_ & _ & _ & _ & _ & _ & _ & _ & _ & AS).
-  destruct S as (_ & _ & _ & _ & _ & _ & _ & HA & HR & _). unfold has_receiver in HA.
+  destruct S as (_ & _ & _ & _ & _ & _ & HA & HR & _). unfold has_receiver in HA.
   destruct (live_kind c (lm_from lm)) eqn:K; rewrite HR; repeat split; try discriminate; auto.
   intros b _. rewrite HA. destruct (is_std (c_lib c)) eqn:S; simpl; auto.
   apply AS; auto. now rewrite HR.
@@ -281,28 +279,73 @@ Proof. intros c ms o G. now destruct (gen_inv _ _ _ G) as (_ & _ & _ & _ & _ & _
 
 (* ---------- subst_self ---------- *)
 Definition no_self (t : ty) := forallb (fun x => negb (String.eqb x "Self")) t.
+Definition starts_colon (t : ty) := match t with y :: _ => String.eqb y "::" | [] => false end.
 
-Lemma subst_self_app : forall a t u, subst_self a (t ++ u) = subst_self a t ++ subst_self a u.
-Proof. intros. unfold subst_self. apply flat_map_app. Qed.
-
-Lemma subst_self_id : forall a t, no_self t = true -> subst_self a t = t.
+Lemma subst_self_id : forall a tb t, no_self t = true -> subst_self a tb t = t.
 Proof.
   induction t as [|x r IH]; simpl; auto. intros H. apply andb_prop in H as [H1 H2].
-  destruct (String.eqb x "Self"); [discriminate|]. simpl. now rewrite IH.
+  destruct (String.eqb x "Self"); [discriminate|]. now rewrite IH.
 Qed.
 
-Lemma subst_self_removes : forall a t, no_self a = true -> no_self (subst_self a t) = true.
+Lemma subst_self_Self : forall a tb, subst_self a tb ["Self"] = a.
+Proof. reflexivity. Qed.
+
+(* `Self :: rest` -> `<turbofish> :: rest'`, the separator stays *)
+Lemma subst_self_path : forall a tb r, subst_self a tb ("Self" :: "::" :: r) = tb ++ "::" :: subst_self a tb r.
+Proof. reflexivity. Qed.
+
+Lemma subst_self_plain : forall a tb r, starts_colon r = false -> subst_self a tb ("Self" :: r) = a ++ subst_self a tb r.
+Proof. intros a tb [|y r] H; simpl in *; [now rewrite app_nil_r|now rewrite H]. Qed.
+
+Lemma subst_self_removes_len : forall a tb n t, List.length t <= n -> no_self a = true -> no_self tb = true -> no_self (subst_self a tb t) = true.
 Proof.
-  intros a t H. unfold no_self, subst_self in *. induction t as [|x r IH]; auto.
-  cbn [flat_map]. rewrite forallb_app. apply andb_true_intro. split; [|exact IH].
-  destruct (String.eqb x "Self") eqn:E; simpl; [exact H|now rewrite E].
+  intros a tb. induction n as [|n IH]; intros t L Ha Hb.
+  - destruct t; [reflexivity|simpl in L; lia].
+  - destruct t as [|x r]; [reflexivity|]. simpl in L. cbn [subst_self].
+    destruct (String.eqb x "Self") eqn:E.
+    + destruct r as [|y r']; [exact Ha|]. simpl in L. destruct (String.eqb y "::") eqn:E2; unfold no_self; rewrite forallb_app;
+        apply andb_true_intro; split.
+      * exact Hb.
+      * cbn [forallb]. apply andb_true_intro. split; [reflexivity|]. assert (L' : List.length r' <= n) by lia. exact (IH r' L' Ha Hb).
+      * exact Ha.
+      * assert (L' : List.length (y :: r') <= n) by (simpl; lia). exact (IH (y :: r') L' Ha Hb).
+    + unfold no_self. cbn [forallb]. rewrite E. simpl. assert (L' : List.length r <= n) by lia. exact (IH r L' Ha Hb).
 Qed.
 
-Lemma subst_self_idem : forall a t, no_self a = true -> subst_self a (subst_self a t) = subst_self a t.
-Proof. intros. apply subst_self_id. now apply subst_self_removes. Qed.
+Lemma subst_self_removes : forall a tb t, no_self a = true -> no_self tb = true -> no_self (subst_self a tb t) = true.
+Proof. intros. eapply subst_self_removes_len; eauto. Qed.
 
-Lemma subst_self_Self : forall a, subst_self a ["Self"] = a.
-Proof. intros. simpl. apply app_nil_r. Qed.
+(* substitution distributes over concatenation unless the cut separates `Self` from its `::` *)
+Lemma subst_self_app_len : forall a tb n t u, List.length t <= n -> starts_colon u = false ->
+  subst_self a tb (t ++ u) = subst_self a tb t ++ subst_self a tb u.
+Proof.
+  intros a tb. induction n as [|n IH]; intros t u L Hu.
+  - destruct t; [reflexivity|simpl in L; lia].
+  - destruct t as [|x r]; [reflexivity|]. simpl in L. cbn [app subst_self].
+    destruct (String.eqb x "Self") eqn:E.
+    + destruct r as [|y r'].
+      * simpl. destruct u as [|z u']; [now rewrite app_nil_r|]. simpl in Hu. now rewrite Hu.
+      * simpl in L. cbn [app]. destruct (String.eqb y "::").
+        -- rewrite IH by (auto; lia). now rewrite <- app_assoc.
+        -- change (y :: r' ++ u) with ((y :: r') ++ u). rewrite IH by (auto; simpl; lia). now rewrite app_assoc.
+    + rewrite IH by (auto; lia). reflexivity.
+Qed.
+
+Lemma subst_self_app : forall a tb t u, starts_colon u = false -> subst_self a tb (t ++ u) = subst_self a tb t ++ subst_self a tb u.
+Proof. intros. eapply subst_self_app_len; eauto. Qed.
+
+Lemma turbo_aux_no_self : forall t b, no_self t = true -> no_self (turbo_aux b t) = true.
+Proof.
+  induction t as [|x r IH]; intros b H; simpl; auto. destruct (String.eqb x "<") eqn:E.
+  - destruct b; [exact H|]. unfold no_self. cbn [forallb]. simpl. exact H.
+  - unfold no_self in *. cbn [forallb] in *. apply andb_prop in H as [H1 H2]. rewrite H1. simpl. now apply IH.
+Qed.
+
+Lemma turbo_no_self : forall t, no_self t = true -> no_self (turbo t) = true.
+Proof. intros. now apply turbo_aux_no_self. Qed.
+
+Example ex_turbo : turbo ["A"; "<"; "T"; ">"] = ["A"; "::"; "<"; "T"; ">"] /\ turbo ["crate"; "::"; "A"] = ["crate"; "::"; "A"].
+Proof. split; reflexivity. Qed.
 
 (* ---------- names ---------- *)
 Lemma string_app_assoc : forall a b c : string, ((a ++ b) ++ c = a ++ (b ++ c))%string.
@@ -386,7 +429,7 @@ Proof. intros c r U N. unfold snake. simpl. rewrite U. now rewrite snake_aux_id.
 
 (* ---------- hypotheses are satisfiable; the guard is needed ---------- *)
 Definition ex_m (v : vis) (n : string) (r : recv_in) (ps : list param) (rt : option ty) : method_in :=
-  {| mi_vis := v; mi_name := n; mi_async := false; mi_recv := r; mi_gen := ""; mi_params := ps; mi_ret := rt; mi_docs := []; mi_slf_ok := false; mi_long := false |}.
+  {| mi_vis := v; mi_name := n; mi_async := false; mi_recv := r; mi_gen := ""; mi_params := ps; mi_ret := rt; mi_docs := []; mi_slf_ok := false |}.
 Definition ex_cfg (f : option fset) : cfg :=
   {| c_lib := Tokio; c_recv := MSlf; c_filter := f; c_debut := false; c_actor_ty := ["A"]; c_actor_name := "A"; c_name := None; c_first := None |}.
 Definition ex_impl : list method_in :=
@@ -422,21 +465,6 @@ Proof.
   eexists. split; [vm_compute; reflexivity|]. vm_compute. discriminate.
 Qed.
 
-(* FULL-STRENGTH statement of the type clauses of sig_spec (no `mi_long m = false` guard):
-     lm_ret lm = option_map (subst_self actor) (mi_ret m)  /\  lm_params lm = map (subst_self actor) ...
-   is false of the faithful model: on a signature that the compiler's token printer wraps, ` Self ` is not found and the
-   types are emitted as written, so `Self` on the handle means the handle type.  Replayed on the real macro on every run. *)
-Lemma types_unguarded_refuted : exists c ms o lm,
-  gen c ms = Ok o /\ In lm (o_mets o) /\ mi_long (lm_from lm) = true
-  /\ lm_ret lm <> option_map (subst_self (c_actor_ty c)) (mi_ret (lm_from lm)).
-Proof.
-  pose (m := {| mi_vis := VPub; mi_name := "reset"; mi_async := false; mi_recv := RNone; mi_gen := "";
-                mi_params := [{| p_actor := false; p_ty := ["u8"] |}]; mi_ret := Some ["Option"; "<"; "Self"; ">"]; mi_docs := [];
-                mi_slf_ok := true; mi_long := true |}).
-  exists (ex_cfg None), [ex_m VPub "new" RNone [] (Some ["Self"]); m]. eexists. eexists.
-  split; [vm_compute; reflexivity|]. split; [left; reflexivity|]. split; [reflexivity|]. vm_compute. discriminate.
-Qed.
-
 Example ex_family_names :
   option_map (fun o => (fo_name o, fo_fields o))
     (match gen_family {| f_lib := Std; f_lock := MSlf; f_name := Some "My"; f_debut := false; f_actor_ty := ["A"]; f_actor_name := "A";
@@ -446,24 +474,41 @@ Example ex_family_names :
   = Some ("MyFamily", [("user", "UserMyLive"); ("super_admin", "SuperAdminOtherLive")]).
 Proof. vm_compute. reflexivity. Qed.
 
-(* ---------- types, guarded by the known class ---------- *)
-Theorem gen_types_guarded : forall c ms o, NoDup (elig_names c ms) -> gen c ms = Ok o ->
-  forall lm, In lm (o_mets o) -> mi_long (lm_from lm) = false ->
-    lm_ret lm = option_map (subst_self (c_actor_ty c)) (mi_ret (lm_from lm))
-    /\ lm_params lm = map (fun p => subst_self (c_actor_ty c) (p_ty p)) (spec_params c (lm_from lm)).
+(* ---------- types ---------- *)
+Theorem gen_types : forall c ms o, NoDup (elig_names c ms) -> gen c ms = Ok o ->
+  forall lm, In lm (o_mets o) ->
+    lm_ret lm = option_map (sub c) (mi_ret (lm_from lm))
+    /\ lm_params lm = map (fun p => sub c (p_ty p)) (spec_params c (lm_from lm)).
 Proof.
-  intros c ms o ND G lm Hin L. destruct (gen_signature _ _ _ ND G lm Hin) as (_ & S).
+  intros c ms o ND G lm Hin. destruct (gen_signature _ _ _ ND G lm Hin) as (_ & S).
   destruct S as (_ & _ & _ & R & P & _). auto.
 Qed.
+
+(* regression witnesses of two repaired defects: a signature longer than one printed line, and `Self ::` paths *)
+Example ex_long_signature :
+  let m := {| mi_vis := VPub; mi_name := "reset"; mi_async := false; mi_recv := RNone; mi_gen := "g";
+              mi_params := [{| p_actor := false; p_ty := ["u8"] |}; {| p_actor := false; p_ty := ["("; "u8"; ","; "String"; ")"] |};
+                            {| p_actor := false; p_ty := ["fn"; "("; "u8"; ")"; "->"; "u8"] |}; {| p_actor := false; p_ty := ["T"] |}];
+              mi_ret := Some ["Option"; "<"; "Self"; ">"]; mi_docs := []; mi_slf_ok := true |} in
+  option_map (fun o => map lm_ret (o_mets o)) (match gen (ex_cfg None) [ex_m VPub "new" RNone [] (Some ["Self"]); m] with Ok o => Some o | Diag _ => None end)
+  = Some [Some ["Option"; "<"; "A"; ">"]].
+Proof. vm_compute. reflexivity. Qed.
+
+Example ex_self_assoc_path :
+  option_map (fun o => map lm_params (o_mets o))
+    (match gen {| c_lib := Std; c_recv := MSlf; c_filter := None; c_debut := false; c_actor_ty := ["G"; "<"; "T"; ">"]; c_actor_name := "G"; c_name := None; c_first := None |}
+               [ex_m VPub "new" RNone [] (Some ["Self"]);
+                ex_m VPub "put" (RRef true) [{| p_actor := false; p_ty := ["["; "u8"; ";"; "Self"; "::"; "N"; "]"] |};
+                                             {| p_actor := false; p_ty := ["Option"; "<"; "Self"; ">"] |}] None]
+     with Ok o => Some o | Diag _ => None end)
+  = Some [[["["; "u8"; ";"; "G"; "::"; "<"; "T"; ">"; "::"; "N"; "]"]; ["Option"; "<"; "G"; "<"; "T"; ">"; ">"]]].
+Proof. vm_compute. reflexivity. Qed.
 
 (* ---------- totality inside the envelope: every valid input gets a handle (so "none is missing" is not vacuous) ---------- *)
 Definition fam_mut_actor (c : cfg) (m : method_in) : bool :=
   match mi_recv m, mi_params m with
   | RNone, p :: _ => p_actor p && negb (is_slf (c_recv c)) && match split_ref (p_ty p) with Some (true, _) => true | _ => false end
   | _, _ => false end.
-(* known class self-assoc-path: an eligible method mentions `Self ::` in a parameter or return type *)
-Definition self_path_class (c : cfg) (ms : list method_in) : bool :=
-  existsb (fun m => eligible c m && sig_self_path (spec_params c m) (mi_ret m)) ms.
 Definition valid_input (c : cfg) (ms : list method_in) : Prop :=
   (match c_filter c with None => True | Some g =>
      NoDup (flt_list g) /\ mem "new" (flt_list g) = false /\ mem "try_new" (flt_list g) = false
@@ -472,7 +517,6 @@ Definition valid_input (c : cfg) (ms : list method_in) : Prop :=
   /\ (forall m, In m ms -> eligible c m = true ->
         mem (mi_name m) (inter_set c) = false /\ fam_mut_actor c m = false
         /\ (is_std (c_lib c) = true -> (exists b, live_kind c m = CRef b) -> mi_async m = false)).
-
 Lemma classify_abort : forall c m d, classify c m = SAbort d -> eligible c m = true /\ fam_mut_actor c m = true.
 Proof.
   intros c m d. unfold classify, eligible, is_ctor, family_skipped, fam_mut_actor.
@@ -496,22 +540,22 @@ Qed.
 
 Lemma process_total : forall c ms f,
   (forall m, In m ms -> eligible c m = true ->
-     mem (mi_name m) (inter_set c) = false /\ fam_mut_actor c m = false /\ sig_self_path (spec_params c m) (mi_ret m) = false) ->
+     mem (mi_name m) (inter_set c) = false /\ fam_mut_actor c m = false) ->
   exists r, process c f ms = Ok r.
 Proof.
   intros c. induction ms as [|m r IH]; intros f H; [simpl; eauto|].
   cbn [process]. assert (Hr : forall m0, In m0 r -> eligible c m0 = true ->
-     mem (mi_name m0) (inter_set c) = false /\ fam_mut_actor c m0 = false /\ sig_self_path (spec_params c m0) (mi_ret m0) = false)
+     mem (mi_name m0) (inter_set c) = false /\ fam_mut_actor c m0 = false)
     by (intros; apply H; simpl; auto).
   destruct (classify c m) as [| |k via|d] eqn:CL.
   - apply IH; auto.
   - destruct (IH f Hr) as [[[f1 l1] n1] E]. rewrite E. eauto.
   - destruct (classify_keep _ _ _ _ CL) as (EL & _ & LP).
-    destruct (H m (or_introl eq_refl) EL) as (A & _ & S). rewrite A, LP, S.
+    destruct (H m (or_introl eq_refl) EL) as (A & _). rewrite A.
     destruct (condition f (mi_name m)) as [f1 b]. destruct b.
     + destruct (IH f1 Hr) as [[[f2 l2] n2] E]. rewrite E. eauto.
     + apply IH; auto.
-  - destruct (classify_abort _ _ _ CL) as (EL & FM). destruct (H m (or_introl eq_refl) EL) as (_ & B & _). congruence.
+  - destruct (classify_abort _ _ _ CL) as (EL & FM). destruct (H m (or_introl eq_refl) EL) as (_ & B). congruence.
 Qed.
 
 Lemma process_new : forall c ms f f' l n, process c f ms = Ok (f', l, n) ->
@@ -525,16 +569,14 @@ Proof.
     + destruct (process c f r) as [[[f1 l1] n1]|]; [|discriminate]. inversion P; subst. discriminate.
     + destruct (mem (mi_name m) (inter_set c)); [discriminate|].
       destruct (condition f (mi_name m)) as [f1 b]. destruct b.
-      * destruct (sig_self_path (live_params k via m) (mi_ret m)); [discriminate|].
-        destruct (process c f1 r) as [[[f2 l2] n2]|] eqn:E; [|discriminate]. inversion P; subst. eapply IH; eauto.
+      * destruct (process c f1 r) as [[[f2 l2] n2]|] eqn:E; [|discriminate]. inversion P; subst. eapply IH; eauto.
       * eapply IH; eauto.
     + discriminate.
 Qed.
 
-Theorem gen_total_guarded : forall c ms, NoDup (elig_names c ms) -> valid_input c ms -> self_path_class c ms = false ->
-  exists o, gen c ms = Ok o.
+Theorem gen_total : forall c ms, NoDup (elig_names c ms) -> valid_input c ms -> exists o, gen c ms = Ok o.
 Proof.
-  intros c ms ND (VF & (mc & Hmc & Vmc & Cmc) & VM) SP. unfold gen.
+  intros c ms ND (VF & (mc & Hmc & Vmc & Cmc) & VM). unfold gen.
   assert (PF : exists f0, parse_filter (c_filter c) = Ok f0 /\ NoDup (flt_list f0) /\ forall n, In n (flt_list f0) -> In n (elig_names c ms)).
   { unfold parse_filter. destruct (c_filter c) as [g|].
     - destruct VF as (N & A & B & K). destruct (has_dup (flt_list g)) eqn:D.
@@ -543,12 +585,8 @@ Proof.
       + rewrite A, B. simpl. eauto.
     - exists (Exclude []). simpl. repeat split; [constructor|contradiction]. }
   destruct PF as (f0 & PF & N0 & K0). rewrite PF.
-  assert (ST : forall m, In m ms -> eligible c m = true ->
-     mem (mi_name m) (inter_set c) = false /\ fam_mut_actor c m = false /\ sig_self_path (spec_params c m) (mi_ret m) = false).
-  { intros m Hm El. destruct (VM m Hm El) as (A & B & _). repeat split; auto.
-    unfold self_path_class in SP. destruct (sig_self_path (spec_params c m) (mi_ret m)) eqn:E; auto.
-    assert (existsb (fun m => eligible c m && sig_self_path (spec_params c m) (mi_ret m)) ms = true)
-      by (apply existsb_exists; exists m; rewrite El, E; auto). congruence. }
+  assert (ST : forall m, In m ms -> eligible c m = true -> mem (mi_name m) (inter_set c) = false /\ fam_mut_actor c m = false).
+  { intros m Hm El. destruct (VM m Hm El) as (A & B & _). auto. }
   destruct (process_total c ms f0 ST) as [[[f' lms] n] P]. rewrite P.
   destruct (process_spec _ _ _ _ _ _ P ND) as (A & B & C).
   rewrite consume_filter in C by assumption.
@@ -561,27 +599,14 @@ Proof.
   exfalso. apply andb_prop in AS as [S AS]. apply existsb_exists in AS as (lm & Hin & AS). apply andb_prop in AS as [R AA].
   assert (Hf : In (lm_from lm) (map lm_from lms)) by now apply in_map.
   rewrite A in Hf. apply filter_In in Hf as [Hms El]. apply andb_prop in El as [El _].
-  destruct (VM _ Hms El) as (_ & _ & V3). rewrite Forall_forall in B. destruct (B lm Hin) as (_ & _ & _ & _ & _ & _ & _ & _ & HR & _).
+  destruct (VM _ Hms El) as (_ & _ & V3). rewrite Forall_forall in B. destruct (B lm Hin) as (_ & _ & _ & _ & _ & _ & _ & HR & _).
   rewrite V3 in AA; [discriminate|assumption|]. rewrite HR in R. destruct (live_kind c (lm_from lm)); try discriminate. eauto.
 Qed.
 
-Example ex_valid_input : valid_input (ex_cfg (Some (Exclude ["get"]))) ex_impl /\ self_path_class (ex_cfg (Some (Exclude ["get"]))) ex_impl = false.
+Example ex_valid_input : valid_input (ex_cfg (Some (Exclude ["get"]))) ex_impl.
 Proof.
-  split; [|vm_compute; reflexivity]. split; [|split].
+  split; [|split].
   - simpl. repeat split; auto; [repeat constructor; simpl; tauto|]. intros n [<-|[]]. vm_compute. tauto.
-  - exists (ex_m VPub "new" RNone [] (Some ["Self"])). repeat split. left; reflexivity.
-  - intros m Hm El. simpl in Hm. repeat destruct Hm as [<-|Hm]; try contradiction; try discriminate El; vm_compute; repeat split; auto; discriminate.
-Qed.
-
-(* FULL-STRENGTH totality (no self_path_class guard) is false of the faithful model: model::replace rewrites ` Self :: ` to the
-   actor path WITHOUT a trailing `::`, the result does not parse and the macro aborts.  Replayed on the real macro on every run. *)
-Lemma total_unguarded_refuted : exists c ms, NoDup (elig_names c ms) /\ valid_input c ms /\ self_path_class c ms = true
-  /\ gen c ms = Diag DSelfPath.
-Proof.
-  exists (ex_cfg None), [ex_m VPub "new" RNone [] (Some ["Self"]);
-                         ex_m VPub "put" (RRef true) [{| p_actor := false; p_ty := ["["; "u8"; ";"; "Self"; "::"; "N"; "]"] |}] None].
-  split; [unfold elig_names; vm_compute; repeat constructor; simpl; tauto|]. split; [|split; vm_compute; reflexivity].
-  split; [exact I|]. split.
   - exists (ex_m VPub "new" RNone [] (Some ["Self"])). repeat split. left; reflexivity.
   - intros m Hm El. simpl in Hm. repeat destruct Hm as [<-|Hm]; try contradiction; try discriminate El; vm_compute; repeat split; auto; discriminate.
 Qed.
